@@ -143,6 +143,31 @@ Proof.
 Qed.
 Print Assumptions C07_recursive.
 
+(* sub-package exclusion: excluded iff SOME entry of the recursive package's list matches the path,
+   every entry being compiled and matched on its own (an inline flag such as (?i) at the start of
+   one entry does not reach the other entries; the entries are not joined into one expression) *)
+Theorem C07_exclusion_per_entry : forall c k,
+  exclude c k = true <-> exists l e, c_exsub c = Some l /\ In e l /\ entry_match e k = true.
+Proof. exact exclude_spec. Qed.
+Print Assumptions C07_exclusion_per_entry.
+
+Theorem C07_exclusion_entry_spec : forall e k,
+  no_neg_class (p_body (x_pat e)) = true ->
+  (entry_match e k = true <->
+   exists a b c, k = a ++ b ++ c /\
+     (exists b', lang (p_body (x_pat e)) b' /\ (if x_fold e then variants b' b else b' = b)) /\
+     (p_bos (x_pat e) = true -> a = []) /\ (p_eos (x_pat e) = true -> c = [])).
+Proof. exact entry_match_spec. Qed.
+Print Assumptions C07_exclusion_entry_spec.
+
+(* a case-insensitive first entry does not make the second one case-insensitive *)
+Example C07_exclusion_flag_does_not_leak :
+  let l := Some [ {| x_fold := true;  x_pat := {| p_bos := false; p_body := RLit (B "/api"); p_eos := true |} |};
+                  {| x_fold := false; x_pat := {| p_bos := false; p_body := RLit (B "/legacy"); p_eos := true |} |} ] in
+  map (excluded_by l) [B "m/cx/API"; B "m/cx/api"; B "m/cx/v2/legacy"; B "m/cx/Legacy"; B "m/cx/legacy/x"]
+  = [true; true; true; false; false].
+Proof. vm_compute. reflexivity. Qed.
+
 (* the property's sentence, literally, when all recursive packages share one exclusion list xs
    (e.g. it is written at top level only): an unconfigured package is injected iff it has Go
    files, no regex of xs matches it and it lies below (or is) a configured recursive package;
@@ -225,7 +250,7 @@ Example C07_example :
   let ss := [(B "m/p", pdecls); (B "m/p/q", one "Q"); (B "m/p/q/r", one "R"); (B "m/p/x", one "X"); (B "m/u", one "U")] in
   let pcfg_p := {| p_cfg := {| c_all := None; c_inc := Some (ReOk {| p_bos := true; p_body := RAlt (RLit (B "A")) (RAlt (RLit (B "B")) (RLit (B "R"))); p_eos := false |});
                                c_exc := None; c_rec := Some true;
-                               c_exsub := Some [{| p_bos := false; p_body := RLit (B "/x"); p_eos := true |}];
+                               c_exsub := Some [{| x_fold := false; x_pat := {| p_bos := false; p_body := RLit (B "/x"); p_eos := true |} |}];
                                c_mark := Some (B "_P") |};
                    p_ifaces := [(B "Get", {| i_mark := None; i_entries := [Some (B "_1"); None] |})] |} in
   let pcfg_q := {| p_cfg := {| c_all := Some true; c_inc := None; c_exc := None; c_rec := Some true; c_exsub := None; c_mark := Some (B "_Q") |};
